@@ -153,6 +153,9 @@ class World:
         P["v_povm"] = np.round(rng.randn(12), 3)
         P["v_gate"] = np.round(rng.randn(16), 3)
         P["v_mproc"] = np.round(rng.randn(48), 3)
+        # operand LISTS (the list forms of compose / tensor product): the callers' lists are operands too
+        P["l_comp"] = [P["p0"], P["g1"], P["g0"], P["s0"]]
+        P["l_tensor"] = [P["s0"], P["s2"]]
         self.P = P
         self._setup_estimation()
 
@@ -338,12 +341,12 @@ class World:
             return out
         if name == "compose":
             return [comp(P["g0"], P["s0"]), comp(P["p0"], P["s0"]), comp(P["p0"], P["g0"]), comp(P["g0"], P["g1"]),
-                    comp(P["p0"], P["g1"], P["g0"], P["s0"])]
+                    comp(P["p0"], P["g1"], P["g0"], P["s0"]), comp(P["l_comp"]), len(P["l_comp"])]
         if name == "compose_m":
             return [comp(P["m0"], P["s0"]), comp(P["p0"], P["m0"]), comp(P["m0"], P["g0"]), comp(P["g0"], P["m0"]),
                     comp(P["p0"], P["m0"], P["s0"])]
         if name == "tensor":
-            return [tp(P["s0"], P["s2"]), tp(P["g0"], P["g2"]), tp(P["p0"], P["p2"]), tp(P["s2"], P["s0"])]
+            return [tp(P["s0"], P["s2"]), tp(P["g0"], P["g2"]), tp(P["p0"], P["p2"]), tp(P["s2"], P["s0"]), tp(P["l_tensor"]), len(P["l_tensor"])]
         if name == "tensor_gm":
             return [tp(P["m0"], P["g2"]), tp(P["g0"], P["m2"])]
         if name == "var_roundtrip":
